@@ -221,9 +221,17 @@ func VerifHarness_C11_xml() {
 	n := verifConc(ndInt("xmllen", 1, 3))
 	data := ndBytes("xml", n)
 	raw := [][]byte{verifFieldText(nil, []byte("212"), verifItoa(n)), verifFieldText(nil, []byte("213"), data), []byte("58=x\x01")}
+	var ad *datadictionary.DataDictionary
+	if ndBool("xmldata-right-after-a-repeating-group") {
+		// XMLDataLen/XMLData are header fields wherever they stand: here directly behind the last member of a group the
+		// application dictionary knows
+		verifCase("after-group")
+		ad = c11AppDict()
+		raw = append([][]byte{[]byte("73=1\x01"), []byte("11=a\x01")}, raw...)
+	}
 	msg := c11Message(raw, nil)
 	m := NewMessage()
-	err := ParseMessage(m, bytes.NewBuffer(msg))
+	err := ParseMessageWithDataDictionary(m, bytes.NewBuffer(msg), nil, ad)
 	verifAssert(err == nil, "xml-message-parses")
 	if err != nil {
 		return
